@@ -27,6 +27,8 @@ META = {
                   "show as replay divergences with stable signatures.",
     "design_ref": "5.4 C20",
 }
+from checks import _driver
+META["level_text"] += _driver.SYSTEM_LEVEL_TEXT
 
 INV = ["CompletesOnce", "AlwaysCompletes", "ErrorIffSomePoolFailed", "KeyspaceEverywhereAfterSuccess", "NoneOnlyWhenShutdown"]
 WITNESSES = ["Witness_SuccessWithPoolWithoutConnection", "Witness_ErrorThenOkLast", "Witness_DiedOnly",
